@@ -23,7 +23,7 @@ PROPERTY = "C19"
 NUM = 19
 RULE = ("cases = a set of 2-8 miniSEED files written by the harness (sampling rates 100/200/250/500 Hz, durations chosen so "
         "that the window length falls on both sides of 2^15 samples and the FFT length chosen for one file differs from "
-        "another's; names with dotted station codes, stems ending in letters of the extension, .mseed/.miniseed, files in a "
+        "another's, or the record holds exactly 2 / 3 windows' worth of samples; names with dotted station codes, stems ending in letters of the extension, .mseed/.miniseed, files in a "
         "sub-directory or given by absolute path) x processing settings (traditional / azimuthal / diffuse field) x distribution options; per case several "
         "batches: orders (all for <= 3 files, random above) x --nproc in {1,2,3,n,16} x injected per-task delays; non-trivial = "
         "a batch with >= 2 files of different FFT length sharing a worker, or >= 2 workers; distinct = observed schedules "
@@ -41,9 +41,9 @@ REQUIRED = ["mon:csv-equals-library-pipeline", "mon:every-file-processed-exactly
 HERE = os.path.dirname(os.path.dirname(os.path.dirname(os.path.abspath(__file__))))
 
 
-def write_mseed(path, rng, fs, seconds):
+def write_mseed(path, rng, fs, seconds, n=None):
     import obspy
-    n = int(fs * seconds) + 1
+    n = int(fs * seconds) + 1 if n is None else int(n)
     st = obspy.Stream()
     for ch in ("BHN", "BHE", "BHZ"):
         data = (rng.standard_normal(n) * 1000).astype(np.int32)
@@ -141,6 +141,7 @@ def fam_batch(ctx, rng):
             rates[int(rng.integers(0, nfiles))] = 500         # 70-80 s at 500 Hz > 2^15 samples -> FFT length 65536
         files = []
         os.makedirs(os.path.join(d, "data"))
+        lengths = []
         for i, fs in enumerate(rates):
             # file names as users have them: station codes with dots, stems that end in letters of the extension,
             # either extension spelling, files in a sub-directory or given by absolute path (output: <stem>.csv in the cwd)
@@ -151,7 +152,16 @@ def fam_batch(ctx, rng):
                 fn = os.path.join("data", fn)
             elif k < 0.3:
                 fn = os.path.join(d, "data", fn)
-            write_mseed(os.path.join(d, fn), rng, fs, float(wl * rng.choice([2.1, 3.1])))
+            # record lengths: a bit more than 2 or 3 windows, or EXACTLY 2 / 3 windows' worth of samples (the last
+            # window is then one sample short), or one sample more than that
+            if rng.random() < 0.35:
+                n_exact = int(round(float(rng.choice([2, 3])) * wl * fs)) + int(rng.choice([0, 0, 1]))
+                write_mseed(os.path.join(d, fn), rng, fs, None, n=n_exact)
+                lengths.append(n_exact)
+            else:
+                sec = float(wl * rng.choice([2.1, 3.1]))
+                write_mseed(os.path.join(d, fn), rng, fs, sec)
+                lengths.append(int(fs * sec) + 1)
             files.append(fn)
         dmc = str(rng.choice(["lognormal", "normal"]))
         dfn = str(rng.choice(["lognormal", "normal"]))
@@ -167,7 +177,7 @@ def fam_batch(ctx, rng):
                 return
             with open(out, "rb") as f:
                 refs[fn] = f.read()
-        ctx.describe(kind=kind, window_length=wl, rates=rates, files=files, distribution_mc=dmc, distribution_fn=dfn)
+        ctx.describe(kind=kind, window_length=wl, rates=rates, samples=lengths, files=files, distribution_mc=dmc, distribution_fn=dfn)
         nb = 3 if ctx.tier == "quick" else 6
         nprocs = [1, 2, 3, nfiles, 16, None]          # None: the CLI's default (cpu count - 1)
         seen_nontrivial = False
